@@ -1042,6 +1042,16 @@ pub fn synthetic_project(seed: u64) -> Project {
         extra_keys.push(format!("DocLast: Doc{}", n_doc - 1));
         extra_keys.push("Doc1: Doc1".into());
     }
+    // a generic alias with a DEFAULT type argument that names a type private to its module, declared far out on a
+    // long line of a small file, and used from a still smaller file with that argument left out (beff knows no
+    // defaults: a located diagnostic today). One synthetic project in eight, decided by the seed without a draw.
+    let default_generic = seed.wrapping_mul(0x9E37_79B9_7F4A_7C15) >> 61 == 0;
+    if default_generic {
+        // (the use sits in a file that is much shorter than the declaring one: a position of the declaration is
+        // not a position of the using file)
+        extra_decls.push("import { UsesPage } from \"./pageuse\";".into());
+        extra_keys.push("UsesPage: UsesPage".into());
+    }
     // a package imported through a bare specifier (node_modules lookup walks up the directories)
     let bare_pkg = rng.chance(1, 5);
     if bare_pkg {
@@ -1275,6 +1285,10 @@ pub fn synthetic_project(seed: u64) -> Project {
     }
     if ambient {
         files.insert("/p/globals.ts".into(), "type GlobalMoney = { amount: number; currency: string };\ninterface GlobalTag { tag: string }\n".into());
+    }
+    if default_generic {
+        files.insert("/p/pageuse.ts".into(), "import { Page } from \"./pagelib\";\nexport type UsesPage = { p: Page<string>; q?: Page<number, string> };\n".into());
+        files.insert("/p/pagelib.ts".into(), format!("// paging helpers\ntype PageCursorPrivate = {{ after: string }};\n/* {} */ export type Page<T, C = PageCursorPrivate> = {{ items: T[]; cursor?: C }};\n", "-".repeat(400)));
     }
     if bare_pkg {
         files.insert("/p/node_modules/shared-types/index.ts".into(), "export type PkgId = string;\nexport type PkgMeta = { createdBy: PkgId; tags: string[] };\n".into());
